@@ -33,9 +33,9 @@ DETECT = {
     "EDDM.drift_thresh": ("EDDM", "drift_thresh", [0.94, 0.9, 0.8, 0.6]),
     "STEPD.alpha_drift": ("STEPD", "alpha_drift", [0.05, 0.02, 0.003, 0.0001]),
     "LFR.detect_level": ("LinearFourRates", "detect_level", [0.1, 0.05, 0.02, 0.005]),
-    "KdqB.alpha": ("KdqTreeBatch", "alpha", [0.4, 0.2, 0.05, 0.01]),
-    "KdqS.alpha": ("KdqTreeStreaming", "alpha", [0.4, 0.2, 0.05, 0.01]),
-    "NNDVI.alpha": ("NNDVI", "alpha", [0.4, 0.2, 0.05, 0.01]),
+    "KdqB.alpha": ("KdqTreeBatch", "alpha", [0.4, 0.3, 0.2, 0.1, 0.06, 0.05, 0.04, 0.02, 0.01]),
+    "KdqS.alpha": ("KdqTreeStreaming", "alpha", [0.4, 0.3, 0.2, 0.1, 0.06, 0.05, 0.04, 0.02, 0.01]),
+    "NNDVI.alpha": ("NNDVI", "alpha", [0.4, 0.3, 0.2, 0.1, 0.05, 0.04, 0.01]),
     "HDDDM.tstat": ("HDDDM", "significance", [0.5, 0.2, 0.05, 0.01]),
     "HDDDM.stdev": ("HDDDM", "significance", [0.25, 0.5, 1.0, 2.0, 3.0]),
     "CDBD.tstat": ("CDBD", "significance", [0.5, 0.2, 0.05, 0.01]),
@@ -48,14 +48,14 @@ WARN = {
     "STEPD.alpha_warning": ("STEPD", "alpha_warning", [0.01, 0.05, 0.1, 0.3]),
     "LFR.warning_level": ("LinearFourRates", "warning_level", [0.05, 0.1, 0.2, 0.4]),
 }
-COST = {"LFR.detect_level": 0.25, "LFR.warning_level": 0.25, "KdqS.alpha": 0.4, "NNDVI.alpha": 0.5, "KdqB.alpha": 0.5}
+COST = {"LFR.detect_level": 0.25, "LFR.warning_level": 0.25, "KdqS.alpha": 0.4, "NNDVI.alpha": 0.5, "KdqB.alpha": 1.0}
 
 
 def scenarios(tier):
-    k = 1 if tier == "quick" else 10
+    k = 1 if tier == "quick" else 6
     out = []
     for fam in list(DETECT) + list(WARN):
-        out.append((fam, int(90 * k * COST.get(fam, 1.0))))
+        out.append((fam, int(260 * k * COST.get(fam, 1.0))))
     return out
 
 
@@ -74,28 +74,21 @@ def gen(rng, scenario, tier):
         cfg["statistic"] = "tstat"
     if fam.endswith(".stdev"):
         cfg["statistic"] = "stdev"
+    # the knob that is NOT varied is randomised too, including legal-but-unusual "inverted" settings
+    # (warning threshold stricter than the drift threshold)
     if name == "DDM":
-        cfg["warning_scale"], cfg["drift_scale"] = 2.0, 3.0
-        if warn:
-            cfg["drift_scale"] = 3.0
+        cfg["warning_scale"], cfg["drift_scale"] = rng.choice([1.0, 2.0, 3.5]), rng.choice([1.5, 3.0, 4.0])
     if name == "EDDM":
-        cfg["warning_thresh"], cfg["drift_thresh"] = 0.95, 0.9
-        if not warn:
-            cfg["warning_thresh"] = 0.95
+        cfg["warning_thresh"], cfg["drift_thresh"] = rng.choice([0.95, 0.85, 0.7]), rng.choice([0.9, 0.8, 0.97])
     if name == "STEPD":
-        cfg["alpha_warning"], cfg["alpha_drift"] = 0.05, 0.003
-        if not warn:
-            cfg["alpha_warning"] = 0.05
-        else:
-            cfg["alpha_drift"] = 0.005
+        cfg["alpha_warning"], cfg["alpha_drift"] = rng.choice([0.05, 0.2, 0.001]), rng.choice([0.003, 0.05, 0.2])
     if name == "LinearFourRates":
-        cfg["warning_level"], cfg["detect_level"] = 0.2, 0.05
-        if warn:
-            cfg["detect_level"] = 0.02
+        cfg["warning_level"], cfg["detect_level"] = rng.choice([0.2, 0.05, 0.01]), rng.choice([0.05, 0.02, 0.2])
     k = adapters.kind(name)
     if k == "batch":
         bs, drifts = workload.batches(rng, rng.randint(8, 18), adapters.n_features(rng, name), 10, 40)
         ev = [[b_, np_seed(rng)] for b_ in bs]
+        refs = [i for i in range(1, min(5, len(ev))) if rng.random() < 0.25]
     elif k == "x":
         knd = rng.choice(["gauss", "ramp", "heavy"]) if name == "CUSUM" else None
         xs, drifts = workload.stream_values(rng, rng.randint(80, 300), kind=knd)
@@ -107,7 +100,10 @@ def gen(rng, scenario, tier):
     else:
         xs, drifts = workload.mv_stream(rng, rng.randint(80, 220), adapters.n_features(rng, name), drift_rate=0.03)
         ev = [[x, np_seed(rng)] for x in xs]
-    return {"family": fam, "det": name, "knob": knob, "a": a, "b": b, "cfg": cfg, "events": ev}
+    # half of the pairs run under ONE continuous seed (installed before the first call only): the relation then also
+    # requires that the knob does not change how many random numbers a call consumes
+    return {"family": fam, "det": name, "knob": knob, "a": a, "b": b, "cfg": cfg, "events": ev,
+            "refs": refs if k == "batch" else [], "continuous": rng.random() < 0.5}
 
 
 def _states(ctx, case, value, stop_at_drift):
@@ -118,10 +114,11 @@ def _states(ctx, case, value, stop_at_drift):
     k = adapters.kind(name)
     out = []
     for i, (x, seed) in enumerate(case["events"]):
-        np.random.seed(seed)
+        if i == 0 or not case.get("continuous"):
+            np.random.seed(seed)
         if k == "batch":
             X = np.array(x, dtype=float)
-            if i == 0:
+            if i == 0 or i in case.get("refs", []):
                 ctx.call(f"C17:{case['family']}:set_reference", det.set_reference, X)
                 continue
             ctx.call(f"C17:{case['family']}:update", det.update, X)
